@@ -85,13 +85,19 @@ def make_b(w, q):
             for k in range(shape.S):
                 model["fw_%d_%d_%ss%d" % (i, j, tag, k)] = True
     import nasim.scenarios.utils as u
-    wb = scen.build_world(scen.ConcSource(model), shape, name_tag=tag,
-                          exploits={'eb': {u.EXPLOIT_SERVICE: "%ss0" % tag, u.EXPLOIT_OS: None, u.EXPLOIT_PROB: 1.0,
-                                           u.EXPLOIT_COST: 1, u.EXPLOIT_ACCESS: 2}})
+    # B has one exploit per service (as many definitions as A when A's action is an exploit:
+    # one) - named so that the first one takes the place of A's
+    exploits = {}
+    for i in range(shape.S):
+        exploits['eb%d' % i] = {u.EXPLOIT_SERVICE: "%ss%d" % (tag, shape.S - 1 - i), u.EXPLOIT_OS: None,
+                                u.EXPLOIT_PROB: 1.0, u.EXPLOIT_COST: 1, u.EXPLOIT_ACCESS: 2}
+    if q['kind'] == 'exploit' and var == 'content':
+        exploits = {'eb0': exploits['eb0']}          # same action count as A: same cache keys
+    wb = scen.build_world(scen.ConcSource(model), shape, name_tag=tag, exploits=exploits)
     return wb.scenario
 
 
-def b_ops(scenario):
+def b_ops(scenario, full=True):
     """construct / reset / step of the second environment (its draws are its own)"""
     envb = m_env.NASimEnv(scenario, fully_obs=False, flat_obs=False)
     envb.reset()
@@ -105,8 +111,15 @@ def b_ops(scenario):
                 return 0.0
         npmodel.random = _One()
         _np.random.rand = lambda *a: 0.0
-        envb.step(acts[0])
-        envb.step(envb.action_space.actions[2])
+        if full:
+            for a_ in acts:                   # every exploit on every host, then a subnet scan
+                envb.step(a_)
+            envb.step(envb.action_space.actions[2])
+            for a_ in acts[:4]:
+                envb.step(a_)
+        else:
+            envb.step(acts[0])
+            envb.step(envb.action_space.actions[2])
     finally:
         npmodel.random = saved
         _np.random.rand = orig
@@ -193,7 +206,7 @@ def run(src, q):
 
         def before(i):
             if i == pos:
-                state['b'] = b_ops(scb)
+                state['b'] = b_ops(scb, full=(q['b_variant'] != 'object'))
         r.inter_exc = None
         try:
             with stubs.sut():
